@@ -68,8 +68,11 @@ def confirm(src, mid):
         if ok:
             dst = os.path.join(SEEDED, mid)
             os.makedirs(dst, exist_ok=True)
-            shutil.copy(os.path.join(src, "patch.diff"), dst)
-            shutil.copy(os.path.join(src, "demo_test.go"), dst)
+            if os.path.abspath(src) != os.path.abspath(dst):
+                shutil.copy(os.path.join(src, "patch.diff"), dst)
+                shutil.copy(os.path.join(src, "demo_test.go"), dst)
+            rc9, head = sh("git -C /repo rev-parse --short HEAD")
+            meta["confirmed_at"] = head.strip()
             meta["confirmed"] = ran
             meta["demo_cmd"] = "cp demo_test.go <tree>/%s/zz_demo_test.go && cd <tree> && go test -vet=off -count=1 -run 'Demo|Seeded' ./%s" % (pkgdir, pkgdir)
             json.dump(meta, open(os.path.join(dst, "meta.json"), "w"), indent=1)
@@ -114,5 +117,8 @@ def run(mid, checks):
 if __name__ == "__main__":
     if sys.argv[1] == "confirm":
         sys.exit(0 if confirm(sys.argv[2], sys.argv[3]) else 1)
+    elif sys.argv[1] == "reconfirm":
+        # the same confirmation against /repo's current HEAD, for a change already stored under /verif/seeded
+        sys.exit(0 if confirm(os.path.join(SEEDED, sys.argv[2]), sys.argv[2]) else 1)
     elif sys.argv[1] == "run":
         run(sys.argv[2], sys.argv[3:])
